@@ -1,5 +1,6 @@
 import RedisVerif.Driver.C07
 import RedisVerif.Driver.C10
+import RedisVerif.Driver.C14
 
 open RedisVerif.Driver
 
@@ -24,4 +25,5 @@ def main (args : List String) : IO UInt32 := do
   match args with
   | ["C07"] => loop stdin stdout C07.step; return 0
   | ["C10"] => loopState stdin stdout C10.step []; return 0
+  | ["C14"] => loopState stdin stdout C14.step {}; return 0
   | _ => IO.eprintln "usage: rvdriver <property-id> < ops"; return 2
